@@ -17,7 +17,7 @@ import json
 import numpy as np
 import sympy as sp
 from hypothesis import strategies as st
-from hypothesis.stateful import RuleBasedStateMachine, initialize, precondition, rule
+from hypothesis.stateful import RuleBasedStateMachine, initialize, rule
 
 from vp.gen.config import BUILDER_NAMES, get_dynamics_builder
 from vp.gen.reactions import build_reaction, children_of, parent_of, reaction_strategy
@@ -365,8 +365,6 @@ def machine(tier, report, gate):
               bidx=st.sampled_from([PROBE, PROBE, PROBE, *range(len(BUILDER_NAMES))]))
         def assign(self, sel, tgt, bidx):
             self.do(["assign", sel, tgt, bidx])
-
-        @precondition(lambda self: self.h is not None and len(self.h.desc["ops"]) > 0)
         @rule()
         def formulate(self):
             self.do(["formulate"])
